@@ -382,7 +382,7 @@ func (g *Gen) strct(depth int) *Node {
 				if r.P(35) {
 					f.Tags["query"] = "q_" + k
 				}
-				if f.Node.Kind == KSlice && r.P(40) {
+				if f.Node.Kind == KSlice && r.P(60) {
 					// the []-suffixed parameter names of HTML forms: always presented as a list
 					if _, ok := f.Tags["form"]; ok || r.P(50) {
 						f.Tags["form"] = "f_" + k + "[]"
